@@ -783,7 +783,7 @@ impl Property for C16 {
         v
     }
     fn plan(&self, tier: Tier) -> Vec<Stage<Case>> {
-        vec![Stage::random("objects", tier.pick(40_000, 1_500_000), || obj().prop_map(|obj| Case { obj }))]
+        vec![Stage::random("objects", tier.pick(40_000, 3_000_000), || obj().prop_map(|obj| Case { obj }))]
     }
     fn rule(&self) -> String {
         "random objects of every serialisable type: Dual / Dual2 (any finite doubles incl. raw bit patterns, subnormals, 17-digit values; 0-6 names incl. unicode and characters that need JSON escaping), plain / combined / named calendars and the calendar container, curves of all five rules plus the null interpolator x derivative orders 0/1/2 x three calendar kinds (generic struct and the Python-facing wrapper), FX markets (float / first-order / second-order quotes, with and without settlement, any base, saved in any derivative order), splines of the three element types with and without coefficients, FX rates, currencies, the number container and the small enums; each through every path that exists for it: direct JSON (JSON trait or serde_json), the tagged from_json entry point (hook), bincode. Oracle: load(save(x)) == x with the type's own equality AND a per-type query set answered bit-identically (values, by-name arrays, business/settlement days around every holiday, curve look-ups and index values, all n*n rates, spline values); named calendars must serialise to their name only and FX markets to quotes + currencies only; FX markets are compared with both sides at first order and their rates must agree (1e-12) in the saved state. Non-trivial: the object holds a double needing >= 16 significant digits, a name needing escaping, or is a type rebuilt on loading.".into()
